@@ -26,10 +26,18 @@ def short(node, n=90) -> str:
 
 
 def set_parents(tree):
-  for node in ast.walk(tree):
-    for ch in ast.iter_child_nodes(node):
-      ch._vf_parent = node
+  """Single pass: parent links; returns the Import/ImportFrom nodes met on the way."""
+  imports = []
   tree._vf_parent = None
+  stack = [tree]
+  while stack:
+    n = stack.pop()
+    for ch in ast.iter_child_nodes(n):
+      ch._vf_parent = n
+      stack.append(ch)
+      if isinstance(ch, (ast.Import, ast.ImportFrom)):
+        imports.append(ch)
+  return imports
 
 
 def parent(node):
